@@ -51,7 +51,7 @@ func mapPath(p Path, t [2]*big.Int, k *big.Int) clipper.Path64 {
 		y := new(big.Int).Mul(big.NewInt(q[1]), k)
 		out[i] = clipper.Point64{X: x.Add(x, t[0]).Int64(), Y: y.Add(y, t[1]).Int64()}
 	}
-	return out
+	return regPath64(out)
 }
 
 func mapPaths(s Paths, t [2]*big.Int, k *big.Int) clipper.Paths64 {
